@@ -365,6 +365,76 @@ struct FnExporter {
     return Id;
   }
 
+  // structured statement tree (syntax level, expression ids shared with the pool)
+  json::Value stree(const Stmt *S) {
+    if (!S) return nullptr;
+    json::Object N;
+    N["loc"] = locOf(C, S->getBeginLoc());
+    if (const auto *CS = dyn_cast<CompoundStmt>(S)) {
+      N["k"] = "seq";
+      json::Array A;
+      for (const Stmt *K : CS->body()) A.push_back(stree(K));
+      N["c"] = std::move(A);
+    } else if (const auto *IS = dyn_cast<IfStmt>(S)) {
+      N["k"] = "if";
+      N["cond"] = exp(IS->getCond());
+      N["then"] = stree(IS->getThen());
+      if (IS->getElse()) N["else"] = stree(IS->getElse());
+    } else if (const auto *FS = dyn_cast<ForStmt>(S)) {
+      N["k"] = "for";
+      if (FS->getInit()) N["init"] = stree(FS->getInit());
+      if (FS->getCond()) N["cond"] = exp(FS->getCond());
+      if (FS->getInc()) N["inc"] = exp(FS->getInc());
+      N["body"] = stree(FS->getBody());
+    } else if (const auto *WS = dyn_cast<WhileStmt>(S)) {
+      N["k"] = "while";
+      N["cond"] = exp(WS->getCond());
+      N["body"] = stree(WS->getBody());
+    } else if (const auto *DS = dyn_cast<DoStmt>(S)) {
+      N["k"] = "do";
+      N["cond"] = exp(DS->getCond());
+      N["body"] = stree(DS->getBody());
+    } else if (const auto *SS = dyn_cast<SwitchStmt>(S)) {
+      N["k"] = "switch";
+      N["cond"] = exp(SS->getCond());
+      N["body"] = stree(SS->getBody());
+    } else if (const auto *CaS = dyn_cast<CaseStmt>(S)) {
+      N["k"] = "case";
+      Expr::EvalResult R;
+      if (CaS->getLHS()->EvaluateAsInt(R, *C.AC)) N["v"] = (int64_t)R.Val.getInt().getSExtValue();
+      N["body"] = stree(CaS->getSubStmt());
+    } else if (const auto *DfS = dyn_cast<DefaultStmt>(S)) {
+      N["k"] = "default";
+      N["body"] = stree(DfS->getSubStmt());
+    } else if (const auto *LS = dyn_cast<LabelStmt>(S)) {
+      N["k"] = "label";
+      N["name"] = LS->getName();
+      N["body"] = stree(LS->getSubStmt());
+    } else if (const auto *GS = dyn_cast<GotoStmt>(S)) {
+      N["k"] = "goto";
+      N["name"] = GS->getLabel()->getName().str();
+    } else if (isa<BreakStmt>(S)) {
+      N["k"] = "break";
+    } else if (isa<ContinueStmt>(S)) {
+      N["k"] = "continue";
+    } else if (isa<NullStmt>(S)) {
+      N["k"] = "null";
+    } else if (isa<ReturnStmt>(S)) {
+      N["k"] = "ret";
+      N["e"] = exp(S);
+    } else if (isa<DeclStmt>(S)) {
+      N["k"] = "decl";
+      N["e"] = exp(S);
+    } else if (isa<Expr>(S)) {
+      N["k"] = "expr";
+      N["e"] = exp(S);
+    } else {
+      N["k"] = "other";
+      N["cls"] = S->getStmtClassName();
+    }
+    return json::Value(std::move(N));
+  }
+
   json::Object run() {
     json::Object F;
     F["name"] = FD->getName().str();
@@ -453,6 +523,8 @@ struct FnExporter {
       Ls.push_back(std::move(O));
     }
     F["vars"] = std::move(Ls);
+    F["body"] = stree(FD->getBody());
+    // locals again: the statement tree may have introduced ids
     F["exprs"] = std::move(Pool);
     return F;
   }
